@@ -9,7 +9,28 @@ SAN_ENV = {
     "ASAN_OPTIONS": "abort_on_error=0:exitcode=99:detect_leaks=1:allocator_may_return_null=0:detect_stack_use_after_return=0:handle_abort=1:new_delete_type_mismatch=1",
     "UBSAN_OPTIONS": "print_stacktrace=1:halt_on_error=1:exitcode=98",
     "LSAN_OPTIONS": "exitcode=97",
+    "TSAN_OPTIONS": "halt_on_error=0:second_deadlock_stack=1:exitcode=66:history_size=4",
 }
+
+
+def tsan_reports(stderr):
+    """Split ThreadSanitizer output into reports; key = kind + first library frame of each stack
+    (line numbers stripped), so that the same race seen through different runs de-duplicates."""
+    out = []
+    for blk in stderr.split("WARNING: ThreadSanitizer: ")[1:]:
+        kind = blk.split(" (", 1)[0].split("\n", 1)[0].strip().replace(" ", "-")
+        stacks = re.split(r"\n\s*\n", blk)
+        tops = []
+        for st in stacks:
+            fr = [re.sub(r"\(.*", "", f) for f in re.findall(r"#\d+ (\S+)", st)]
+            lib = [f for f in fr if "squids::" in f]
+            if lib:
+                tops.append(lib[0])
+        if tops:
+            out.append(("san:ThreadSanitizer:%s:%s" % (kind, "|".join(sorted(set(tops))[:2])), blk[:3000]))
+        else:
+            out.append(("tsan:report-without-library-frame:%s" % kind, blk[:3000]))
+    return out
 
 
 def load_known():
@@ -96,6 +117,16 @@ def run_shard(binary, prop, tier, seed, shard, nshards, scale, variant, workdir,
             break
         stderr = open(err, "r", errors="replace").read()
         idx, phase, desc = _read_progress(prog)
+        # race reports do not stop the run (halt_on_error=0): the result file is complete
+        if os.path.exists(out) and "ThreadSanitizer" in stderr:
+            results.append(json.load(open(out)))
+            seen = set()
+            for key, blk in tsan_reports(stderr):
+                if key in seen:
+                    continue
+                seen.add(key)
+                crashes.append(dict(key=key, idx=-1, desc="ThreadSanitizer report", detail=blk, variant=variant))
+            break
         # a leak report at exit comes after the result file was written
         if os.path.exists(out) and "LeakSanitizer" in stderr:
             results.append(json.load(open(out)))
